@@ -202,6 +202,9 @@ pub fn case_wire(caller: &str, mask: &str, ident: &str) -> Vec<Finding> {
                 "except" => "e",
                 _ => "I",
             };
+            // a member without rank (another identity), on the channel before any list is set
+            let other_slot = 1 + IDENTS.iter().position(|x| *x != ident).unwrap();
+            m!(w.send(other_slot, "JOIN #c"));
             if caller == "except" {
                 m!(w.send(0, "MODE #c +b *!*@*"));
             }
@@ -261,6 +264,22 @@ pub fn case_wire(caller: &str, mask: &str, ident: &str) -> Vec<Finding> {
                 out.push(finding("wire:removal", format!("-{} {} did not remove the stored mask {:?}: {:?}", letter, mask, norm, still)));
             }
             m!(w.send(0, &format!("MODE #c +{} {}", letter, mask)));
+            w.take_all();
+            // the stored mask is what is compared from now on: attempts by a member without
+            // rank (refused) leave the list as it is
+            for l in [format!("MODE #c +{} zz", letter), format!("MODE #c -{} {}", letter, mask)] {
+                m!(w.send(other_slot, &l));
+            }
+            let snap = w.snapshot();
+            let after: Vec<String> = match (snap.channels.iter().find(|c| c.name == "#c"), caller) {
+                (Some(c), "ban") | (Some(c), "speak") => c.ban.clone(),
+                (Some(c), "except") => c.exception.clone(),
+                (Some(c), _) => c.invite_exception.clone(),
+                _ => vec![],
+            };
+            if !after.contains(&norm) || after.iter().any(|x| x.starts_with("zz")) {
+                out.push(finding("wire:refused-change", format!("after refused +{}/-{} attempts by a plain member the list is {:?}, expected to hold exactly what the operator set ({:?})", letter, letter, after, norm)));
+            }
             w.take_all();
             // enforced
             let matches = glob(&norm, &src);
